@@ -24,6 +24,8 @@ pub struct Cfg {
     pub lazy: bool,
     pub usedir: Option<String>,
     pub savedir: Option<String>,
+    /// `order=le`: the index probe uses a key type ordered as a little-endian number (its order is NOT the byte order)
+    pub key_le: bool,
 }
 
 impl Default for Cfg {
@@ -42,6 +44,7 @@ impl Default for Cfg {
             lazy: false,
             usedir: None,
             savedir: None,
+            key_le: false,
         }
     }
 }
@@ -76,6 +79,7 @@ pub fn parse_cfg(script: &str) -> Cfg {
                     "runtime" => c.runtime_ct = v == "ct",
                     "init" => c.lazy = v == "lazy",
                     "nomodel" | "bloombits" => {}
+                    "order" => c.key_le = v == "le",
                     "usedir" => c.usedir = Some(v.to_string()),
                     "savedir" => c.savedir = Some(v.to_string()),
                     _ => panic!("unknown cfg key {}", k),
